@@ -3,7 +3,7 @@
 (* path form, x provider directory name (plain, dashed, digit) x consumer file depth x target renamed *)
 (* x a same-named type in a third crate. Prints the file every type must be written to.                *)
 EXTENDS Workspace, TLC, Json
-CONSTANTS Forms, Dirs, Depths, Roots
+CONSTANTS Forms, Dirs, Depths, Roots, Shapes
 VARIABLE c
 \* form use_via_facade: the type is named through a crate of the workspace that only re-exports it (and has typeshared types of
 \* its own): the import still has to come from the file of the crate that DEFINES the type
@@ -13,7 +13,11 @@ VARIABLE c
 \* shadow: the consumer FILE also has a generic item one of whose type parameters is called like the imported type
 \* (struct Wrapper<Target> { w: Target }): inside that item the name is a placeholder, everywhere else in the file it is the
 \* imported type, which still has to be imported
-Init == c \in { r \in [form : Forms, dir : Dirs, depth : Depths, renamed : BOOLEAN, dup : BOOLEAN, dup_renamed : BOOLEAN, root : Roots, shadow : BOOLEAN] :
+\* shape: the consumer's ONLY references to the type: plain_and_vec (a field of the type and a Vec of it) / map_key / map_val /
+\* gen_first / gen_last (first / last argument of a two-parameter generic of the consumer crate) / gen_nested_first: a type that is
+\* mentioned once, anywhere inside a type expression, is used by the file
+Init == c \in { r \in [form : Forms, dir : Dirs, depth : Depths, renamed : BOOLEAN, dup : BOOLEAN, dup_renamed : BOOLEAN, root : Roots, shadow : BOOLEAN, shape : Shapes] :
+                  /\ r.shape # "plain_and_vec" => (r.form \in {"use_single", "use_group", "qualified", "use_glob"} /\ r.depth = "lib" /\ ~r.dup /\ r.root = "plain" /\ ~r.shadow /\ r.dir = "alpha")
                   /\ r.shadow => (~r.dup /\ r.root = "plain" /\ r.depth = "lib")
                   /\ r.dup_renamed => r.dup
                   /\ r.root # "plain" => (r.depth = "lib" /\ ~r.dup) }
